@@ -61,6 +61,16 @@ struct C17 : Profile {
       default: out.push_back(pool[r.below(sizeof(pool) / sizeof(pool[0]))]);
       }
     }
+    // wide statements: one statement that needs many temporaries (the pool of temporaries grows, is recycled and may be trimmed at the end of the
+    // statement), each temporary a discarded module object; the width is a per-run knob so no slot index is privileged
+    if (r.chance(0.35)) {
+      int w = (int)r.range(2, 110);
+      switch (r.below(3)) {
+      case 0: out.push_back("on4 = tab(" + std::to_string(w) + ", vf(" + std::to_string(100 + (int)r.below(50)) + ").tag());"); break;
+      case 1: { std::string e = "0"; for (int i = 0; i < w && i < 70; ++i) e += " + vf(" + std::to_string(200 + i) + ").tag()"; out.push_back("print " + e + ";"); break; }
+      default: out.push_back("on5 = 0;\nfor wi in 1 to " + std::to_string(1 + w / 8) + " loop\n  on4 = tab(" + std::to_string(w) + ", vf(wi).me().tag());\n  on5 = on5 + on4.count();\nend loop;"); break;
+      }
+    }
     return out;
   }
 
